@@ -128,7 +128,8 @@ CLAIMED = {
              'result; Chain.force marks exactly the closure, which is the named tasks plus everything reachable along '
              'input->dependant arcs (closure proved sound and complete), all other objects keep their state; a forced object '
              'runs again although a result is stored, its value then stays in memory and later requests are memory hits; '
-             'unforced objects are served from storage. Correspondence: histories rich in force/force_chain with all flag '
+             'unforced objects are served from storage; reset_data (an operation of the history model) drops the value in '
+             'memory and keeps the forced mark. Correspondence: histories rich in force/force_chain with all flag '
              'combinations plus is_forced/has_data inspection; oracle recomputes closures from observed edges and counts runs.',
         note='recompute iterates a Python set: order is arbitrary, compared as a multiset per operation',
         technique='Coq proof (reachability closure, fold over forced objects) + differential histories via vm_compute',
@@ -201,7 +202,10 @@ CLAIMED = {
         text='Theorems over all name lists and queries (arbitrary text, no well-formedness needed): resolution is '
              'invariant under permutation of the declared tasks; a resolved name is a declared match that is the '
              'less nested form (namespace and group components are suffixes) of every other match, and conversely; '
-             'not-found iff no match; at most one match can have priority. Model tied to _find_task_full_name, '
+             'not-found iff no match; at most one match can have priority. For well-formed names (components are '
+             'non-empty texts without a colon) the code\'s own splits are proved to recover the components, matching is '
+             'characterised on components, and every task resolves by its full name and matches its three shorter forms; '
+             'an ambiguous name among a dependant\'s inputs is an error for optional inputs too. Model tied to _find_task_full_name, '
              'Chain.__getitem__/__contains__ and InputTasks by differential runs on colliding prefix/suffix name sets.',
         note='model of _find_task_full_name hand-written (textual, mirrors the splits of the code); UTF-8 argument '
              'for byte-wise splitting; the full-name-always-resolves corollary is exercised by the oracle, not yet a theorem',
@@ -226,7 +230,9 @@ CLAIMED = {
         text='The 1.4.0 scheme stated as theorems about the model (key = 32 hex digits of H(params$$$inputs), registry '
              'and inputs text, directory layout, extensions, side files); FIPS vectors for the Gallina SHA-256; 7 golden '
              'pipelines whose full relative paths, produced by the pinned implementation, are recomputed by the kernel '
-             'from the model (vm_compute). Every run compares registry texts, whole-chain keys/locations (three-way with '
+             'from the model (vm_compute). The naming rule of tasks (snake case of the class name without a trailing '
+             '_task, explicit Meta.name verbatim, module / package groups) is a Gallina function with its own theorems, '
+             'compared with MetaTask on classes created with type(). Every run compares registry texts, whole-chain keys/locations (three-way with '
              'a frozen independent re-implementation) and SHA-256 vs hashlib on random inputs.',
         note='essentially translation validation of the scheme: goldens and the frozen oracle were produced at the '
              'pinned commit; name mode (key = config name) is covered with C20',
@@ -252,7 +258,8 @@ CLAIMED = {
              'missing or damaged file makes the computer run exactly once, its result stored and returned; force always '
              'recomputes and replaces; a raising computer stores nothing; get never computes and never returns a damaged '
              'file; an entry recorded for another key is reported; every other file is untouched; distinct keys (no-collision '
-             'hypothesis on the two keys) and a cache vs any of its sub-caches (whatever the name) use distinct files. Tied to '
+             'hypothesis on the two keys) and a cache vs any of its sub-caches (whatever the name), and two sub-caches with different names (single or '
+             'multi-component), use distinct files. Tied to '
              'JsonCache by differential operation sequences with sub-caches, unicode keys, falsy/None values, failing '
              'computers and files truncated at arbitrary byte lengths, emptied, corrupted, re-shaped or planted for another key.',
         note='orjson and "no proper prefix of an entry parses" trusted (exercised by truncation); hash shape (64 hex chars) and '
